@@ -56,7 +56,27 @@ Definition is_set_node (e : expr) : bool :=
 Definition mul_factor_old (p : expr * expr) : expr :=
   if expr_eqb (snd p) e_one then fst p else EPow (fst p) (snd p).
 
+(* The library calls made by the visitors.  [real_sops] are their transcriptions (Expr/Arith.v); the
+   visitor is written against the record so that the theorems can also run it with every call guarded
+   by the precondition of the theorem about that call (C11/SubsGuardedOps.v). *)
+Record sops := {
+  s_mul : expr -> expr -> res expr;                                          (* mul(a, b) *)
+  s_pow : expr -> expr -> res expr;                                          (* pow(a, b) *)
+  s_div : expr -> expr -> res expr;                                          (* div(a, b) *)
+  s_add : expr -> expr -> res expr;                                          (* add(a, b) *)
+  s_datn : number * mdict -> expr -> expr -> res (number * mdict);           (* Mul::dict_add_term_new *)
+  s_cdat : number -> adict -> number -> expr -> res (number * adict);        (* Add::coef_dict_add_term *)
+  s_nummul : number -> number -> res number;                                 (* imulnum *)
+  s_mfd : number -> mdict -> res expr;                                       (* Mul::from_dict *)
+  s_afd : number -> adict -> res expr                                        (* Add::from_dict *)
+}.
+Definition real_sops : sops := {|
+  s_mul := a_mul; s_pow := a_pow; s_div := a_div; s_add := e_add; s_datn := a_datn;
+  s_cdat := coef_dict_add_term; s_nummul := num_mul;
+  s_mfd := fun c d => Ok (mul_from_dict c d); s_afd := fun c d => Ok (add_from_dict c d) |}.
+
 Section Visit.
+  Variable Sp : sops.
   Variable sp : bool.   (* SubsVisitor::bvisit(const Pow &) in force? = subs_pow kind *)
   Variable sd : mdict.                                   (* subs_dict_ *)
   Variable ap : mdict -> expr -> res (expr * mdict).     (* apply, with the state `visited` *)
@@ -79,18 +99,18 @@ Section Visit.
   (* the tail of bvisit(Mul) for one replaced factor *)
   Definition mul_factor (st : number * mdict) (factor : expr) : res (number * mdict) :=
     match factor with
-    | ENum n => do c <- num_mul (fst st) n; Ok (c, snd st)
+    | ENum n => do c <- s_nummul Sp (fst st) n; Ok (c, snd st)
     | EMul tc td =>
-        do c <- num_mul (fst st) tc;
-        fold_res (fun s q => a_datn s (snd q) (fst q)) td (c, snd st)
-    | _ => do et <- as_base_exp factor; a_datn st (fst et) (snd et)
+        do c <- s_nummul Sp (fst st) tc;
+        fold_res (fun s q => s_datn Sp s (snd q) (fst q)) td (c, snd st)
+    | _ => do et <- as_base_exp factor; s_datn Sp st (fst et) (snd et)
     end.
 
   (* the tail of XReplaceVisitor::bvisit(Pow) / SubsVisitor::bvisit(Pow): x = Pow(b, e), b' e' the
      results of apply on b and e *)
   Definition pow_result (x b e b' e' : expr) : res expr :=
     let generic (_ : unit) : res expr :=
-      if expr_eqb b' b && expr_eqb e' e then Ok x else a_pow b' e' in
+      if expr_eqb b' b && expr_eqb e' e then Ok x else s_pow Sp b' e' in
     if sp then
       match sd with
       | [(EPow kb ke, kv)] =>
@@ -98,9 +118,9 @@ Section Visit.
           | EAdd _ _ => generic tt
           | _ =>
               if expr_eqb kb b' then
-                do newexpo <- a_div e' ke;
+                do newexpo <- s_div Sp e' ke;
                 match newexpo with
-                | ENum _ | EConst _ => a_pow kv newexpo
+                | ENum _ | EConst _ => s_pow Sp kv newexpo
                 | _ => generic tt
                 end
               else generic tt
@@ -113,35 +133,35 @@ Section Visit.
     match x with
     | EAdd c d =>
         do st0 <- match find_key (ENum c) sd with
-                  | Some v => coef_dict_add_term (NInt 0) [] (NInt 1) v
+                  | Some v => s_cdat Sp (NInt 0) [] (NInt 1) v
                   | None => Ok (c, [])
                   end;
         do '(st, vis') <- fold_res (fun (acc : (number * adict) * mdict) p =>
             let '(s, vs) := acc in
             match find_key (add_from_dict (NInt 0) [(fst p, snd p)]) sd with
-            | Some v => do s' <- coef_dict_add_term (fst s) (snd s) (NInt 1) v; Ok (s', vs)
+            | Some v => do s' <- s_cdat Sp (fst s) (snd s) (NInt 1) v; Ok (s', vs)
             | None =>
                 match find_key (ENum (snd p)) sd with
                 | Some v =>
                     do '(t, vs') <- ap vs (fst p);
-                    do m <- a_mul v t;
-                    do s' <- coef_dict_add_term (fst s) (snd s) (NInt 1) m; Ok (s', vs')
+                    do m <- s_mul Sp v t;
+                    do s' <- s_cdat Sp (fst s) (snd s) (NInt 1) m; Ok (s', vs')
                 | None =>
                     do '(t, vs') <- ap vs (fst p);
-                    do s' <- coef_dict_add_term (fst s) (snd s) (snd p) t; Ok (s', vs')
+                    do s' <- s_cdat Sp (fst s) (snd s) (snd p) t; Ok (s', vs')
                 end
             end) d (st0, vis);
-        Ok (add_from_dict (fst st) (snd st), vis')
+        do r <- s_afd Sp (fst st) (snd st); Ok (r, vis')
     | EMul c d =>
         do '(st, vis1) <- fold_res (fun (acc : (number * mdict) * mdict) p =>
             let '(s, vs) := acc in
             let factor_old := mul_factor_old p in
             do '(factor, vs') <- ap vs factor_old;
-            do s' <- (if expr_eqb factor factor_old then a_datn s (snd p) (fst p) else mul_factor s factor);
+            do s' <- (if expr_eqb factor factor_old then s_datn Sp s (snd p) (fst p) else mul_factor s factor);
             Ok (s', vs')) d ((NInt 1, []), vis);
         do '(factor, vis2) <- ap vis1 (ENum c);
         do st' <- mul_factor st factor;
-        Ok (mul_from_dict (fst st') (snd st'), vis2)
+        do r <- s_mfd Sp (fst st') (snd st'); Ok (r, vis2)
     | EPow b e =>
         do '(b', vis1) <- ap vis b;
         do '(e', vis2) <- ap vis1 e;
@@ -153,8 +173,8 @@ Section Visit.
             | Some v =>
                 do '(re', vis1) <- ap vis (ENum re);
                 do '(im', vis2) <- ap vis1 (ENum im);
-                do m <- a_mul im' v;
-                do r <- e_add re' m; Ok (r, vis2)
+                do m <- s_mul Sp im' v;
+                do r <- s_add Sp re' m; Ok (r, vis2)
             | None => Ok (x, vis)
             end
         | None => Ok (x, vis)
@@ -178,7 +198,7 @@ Section Visit.
     end.
 End Visit.
 
-Fixpoint apply (fuel : nat) (sp : bool) (cache : bool) (sd : mdict) (vis : mdict) (x : expr)
+Fixpoint apply (Sp : sops) (fuel : nat) (sp : bool) (cache : bool) (sd : mdict) (vis : mdict) (x : expr)
   : res (expr * mdict) :=
   match fuel with
   | O => ErrFuel
@@ -187,13 +207,13 @@ Fixpoint apply (fuel : nat) (sp : bool) (cache : bool) (sd : mdict) (vis : mdict
         match mlookup x vis with
         | Some (_, v) => Ok (v, vis)
         | None =>
-            do '(r, vis') <- bvisit sp sd (apply f sp cache sd) vis x;
+            do '(r, vis') <- bvisit Sp sp sd (apply Sp f sp cache sd) vis x;
             Ok (r, minsert x r vis')
         end
       else
         match mlookup x sd with
         | Some (_, v) => Ok (v, vis)
-        | None => bvisit sp sd (apply f sp cache sd) vis x
+        | None => bvisit Sp sp sd (apply Sp f sp cache sd) vis x
         end
   end.
 
@@ -232,8 +252,10 @@ Definition subs_fuel (x : expr) : nat := S (wsize x).
 
 (* xreplace / subs / msubs / ssubs (x, subs_dict, cache): the constructor copies subs_dict into visited
    when cache is set *)
+Definition subs_with (Sp : sops) (kind : skind) (cache : bool) (sd : mdict) (x : expr) : res expr :=
+  do '(r, _) <- apply Sp (subs_fuel x) (subs_pow kind) cache sd (if cache then sd else []) x; Ok r.
 Definition subs_gen (kind : skind) (cache : bool) (sd : mdict) (x : expr) : res expr :=
-  do '(r, _) <- apply (subs_fuel x) (subs_pow kind) cache sd (if cache then sd else []) x; Ok r.
+  subs_with real_sops kind cache sd x.
 
 (* the map built by the driver: m[k] = v for the pairs in order *)
 Definition mk_dict (l : list (expr * expr)) : mdict :=
